@@ -244,6 +244,35 @@ CLAIMED['C02'] = (
     'product with non-zero weight is a violation whatever the data.', 'Bounded grids; per-fold precisions diagonal in the exact '
     'tier (general SPD lists in the float tier).', '4/C02 and notes/C02.md')
 
+# what the growth rounds added on top of the first delivery (appended to the level text)
+GROWN = {
+    'C01': 'Growth: calc_rdm_movie(unbalanced=True), cross-validated movies, cv / unbalanced lists (CalcRdm.tla instantiates '
+           'Unbalanced.tla; theorem UnbalancedMatchesBalanced), time_descriptor= and subset_time flavours, repeated calls on one '
+           'dataset object.',
+    'C02': 'Growth: cross-validated partial RDMs per dataset / time bin (PartialCv), default and explicit folds, per-fold '
+           'precisions in movies, list alignment through from_partials.',
+    'C04': 'Growth: the three bootstrap_testset routines (test set = complement of the draw, perturbation replay for '
+           'non-dependence), eval_fixed on resampled stacks (dof).',
+    'C06': 'Growth: stacks with duplicated index values, 3-stack shape reporting, NaN samples in stored noise ceilings through '
+           'test_noise and test_all.',
+    'C07': 'Growth: both pool_rdm implementations against one Pool definition for eleven methods (theorems PoolKindsAgree, '
+           'V3Adjugate), unequal cross-validation folds, extreme rescaling factors (1e-26 .. 1e+12).',
+    'C08': 'Growth: ModelFamily (FamilyBijection), model bookkeeping facts for every class, fit sessions on one model object with '
+           'the ModelFrame action property, index relabelling (RelabelFree), ridge / positivity post-conditions, work-bounded '
+           'termination of the non-negative solver on scaled bases, fit_optimize_positive with sigma_k.',
+    'C11': 'Growth: bin_time with several time descriptors, isin membership (interleaved / skipping / overlapping bins), bin '
+           'containers, average_dataset, __eq__ round trips.',
+    'C12': 'Growth: argument factories for every discovered callable: 190 of 190 value-returning callables exercised.',
+    'C13': 'Growth: from_partials with per-partial pattern order (token values name their pair), rescale in extreme units.',
+    'C14': 'Growth: channel-scaled data with an equilibrated inverse oracle, int64 / int32 / float32 inputs.',
+    'C16': 'Growth: pickle streams with the handle position as state (StreamReadsInOrder), single-model Results (0-d variances).',
+    'C18': 'Growth: encoding designs (EncContract), trial covariance, make_signal driven directly with exact G, all model classes.',
+    'C19': 'Growth: all masks of 3x3x2 and 4x2x2, irrational radii decided on squares, ten mask topologies, random-walk masks '
+           '(WalkMonotone), evaluate_models_searchlight on derived (subset / permuted) objects in every interleaving.',
+    'C20': 'Growth: exact HRF design matrices on the volume grid (integer kernel table, HrfLaws), derivative data sets on disk, '
+           'rdms_to_df, read_epochs on real .fif files, duplicate Meadows base names, negative onsets.',
+}
+
 NOT_YET = {
 }
 
@@ -256,6 +285,8 @@ def main():
         pid = p['id']
         if pid in CLAIMED:
             tech, text, note, ref = CLAIMED[pid]
+            if pid in GROWN:
+                text = text + ' ' + GROWN[pid]
             checks.append({
                 'property_id': pid,
                 'quick_cmd': f'./check {pid} --tier quick',
